@@ -4,7 +4,7 @@
    what the 64-bit bit counter does when it wraps.  Expected values were produced independently
    (Python hashlib / hmac) and agree with the values printed in the standards. *)
 From Coq Require Import Arith NArith List.
-From LCP Require Import Base.CheckedMem Alg.Words Alg.MDSpec Alg.Sha256Spec Alg.Sha1Spec Alg.Md5Spec Alg.HashSpecs Alg.Sha256Model Alg.MD32Model Alg.HmacModel Alg.HashRepo Alg.HashRepoProofs Alg.Sha256Proofs.
+From LCP Require Import Base.CheckedMem Alg.Words Alg.MDSpec Alg.Sha256Spec Alg.Sha1Spec Alg.Md5Spec Alg.HashSpecs Alg.Sha256Model Alg.MD32Model Alg.HmacModel Alg.HashRepo Alg.HashRepoProofs Alg.Sha256Proofs Alg.MD32Proofs.
 Import ListNotations.
 Local Open Scope N_scope.
 
@@ -156,4 +156,20 @@ Proof. repeat split; vm_compute; reflexivity. Qed.
 Example pbkdf2_assert : pbkdf2_sha256 [] [] 1 137438953441 = AssertFail.
 Proof. vm_compute. reflexivity. Qed.
 Example pbkdf2_never_returns : pbkdf2_sha256 [] [] 18446744073709551615 32 = OutOfFuel.
+Proof. vm_compute. reflexivity. Qed.
+(* instances satisfying the hypotheses of the transform and resume theorems *)
+Example transform_hyps_instance :
+  (length H0_256 = 8 /\ length H0_1 = 5 /\ length IV_md5 = 4 /\ length (repeat 7 64) = 64)%nat.
+Proof. repeat split. Qed.
+Example sha256_transform_instance :
+  sha256_transform H0_256 (repeat 7 64) = f256_compress H0_256 (repeat 7 64).
+Proof. vm_compute. reflexivity. Qed.
+Example wf32_sha1_instance : MD32Proofs.wf32 5 true (mk32 H0_1 0 4294967288 (repeat 0 64)).
+Proof. repeat split; vm_compute; reflexivity. Qed.
+Example wf32_md5_instance : MD32Proofs.wf32 4 false (mk32 IV_md5 4294967288 0 (repeat 0 64)).
+Proof. repeat split; vm_compute; reflexivity. Qed.
+(* the resume theorems at work across the carry: 2 bytes absorbed after 2^32 - 8 bits *)
+Example sha1_resume_instance :
+  fst (sha1_final (sha1_update (mk32 H0_1 0 4294967288 (repeat 0 64)) [1; 2])) =
+  SHA1_resume_spec H0_1 4294967288 (repeat 0 64) [1; 2].
 Proof. vm_compute. reflexivity. Qed.
